@@ -859,6 +859,11 @@ impl<C: MlsConfig, E: ExternalMlsConfig + Clone> World<C, E> {
                 Ok(d)
             }
             "app" => {
+                // "burn": n  -> n messages are encrypted and thrown away first (the message then carries
+                // a generation n ahead of what any receiver has seen)
+                for _ in 0..op["burn"].as_u64().unwrap_or(0) {
+                    mls!(grp!().encrypt_application_message(b"", vec![]));
+                }
                 let msg = mls!(grp!().encrypt_application_message(&hexd(&op["data"]), aad));
                 self.msgs.insert(id, mls!(msg.to_bytes()));
                 Ok(json!({}))
